@@ -12,11 +12,14 @@ Definition fsys := list (bytes * bytes).       (* readable files: path -> conten
 Fixpoint lookup (fs : fsys) (p : bytes) : option bytes :=
   match fs with [] => None | (q, c) :: r => if beq p q then Some c else lookup r p end.
 
+(* list reversal in linear time (List.rev is quadratic once extracted; lines may be long) *)
+Definition frev (l : bytes) : bytes := rev_append l [].
+
 (* getline(3): pieces ending with their newline; a last piece without one if non-empty *)
 Fixpoint lines_acc (s cur : bytes) : list bytes :=
   match s with
-  | [] => match cur with [] => [] | _ => [rev cur] end
-  | b :: r => if b =? 10 then rev (10 :: cur) :: lines_acc r [] else lines_acc r (b :: cur)
+  | [] => match cur with [] => [] | _ => [frev cur] end
+  | b :: r => if b =? 10 then frev (10 :: cur) :: lines_acc r [] else lines_acc r (b :: cur)
   end.
 Definition file_lines (s : bytes) : list bytes := lines_acc s [].
 
@@ -25,7 +28,7 @@ Definition cstr (s : bytes) : bytes := take_while (fun b => negb (b =? 0)) s.
 
 (* xstrcln(line, NULL): strip "\n\t " at both ends *)
 Definition is_sp (b : N) : bool := (b =? 10) || (b =? 9) || (b =? 32).
-Definition strip (s : bytes) : bytes := rev (drop_while is_sp (rev (drop_while is_sp s))).
+Definition strip (s : bytes) : bytes := frev (drop_while is_sp (frev (drop_while is_sp s))).
 
 Definition is_blank (b : N) : bool := (b =? 32) || (b =? 9).
 Definition is_tok_sep (b : N) : bool := (b =? 10) || (b =? 13) || (b =? 9) || (b =? 32).
